@@ -243,13 +243,13 @@ func isLoadPrimitive(c *Ctx, f *ssa.Function, depth int) bool {
 					continue
 				}
 				// fresh node constructors
-				if sc := call.Call.StaticCallee(); sc != nil && !c.Facts.MayLoad[sc] {
+				if sc := ir.Callee(call.Call); sc != nil && !c.Facts.MayLoad[sc] {
 					continue
 				}
 			}
 			return false
 		case *ssa.Call:
-			if sc := x.Call.StaticCallee(); sc != nil && !c.Facts.MayLoad[sc] {
+			if sc := ir.Callee(x.Call); sc != nil && !c.Facts.MayLoad[sc] {
 				continue
 			}
 			return false
